@@ -27,7 +27,7 @@ ASSUMPTIONS = [
     "'large variance' = variance >= 64 x reference (update factor <= 1e-19): delta within 1e-15*(max-min) + 1e-12*min_delta of min_delta; the lower range bound is checked to 4 ulp of min_delta",
     "committee inputs whose variation is 0/0 (all members exactly zero) are outside the domain and not judged",
 ]
-REQUIRED = {"update_calls": 2000, "anchor_zero": 50, "anchor_reference": 50, "anchor_large": 50, "monotone_pairs": 1000, "fallback_calls": 20, "per_coordinate_calls": 200, "in_step_calls": 10}
+REQUIRED = {"calls_after_retuning": 500, "update_calls": 2000, "anchor_zero": 50, "anchor_reference": 50, "anchor_large": 50, "monotone_pairs": 1000, "fallback_calls": 20, "per_coordinate_calls": 200, "in_step_calls": 10}
 SHARD_TIMEOUT = {"quick": 600, "thorough": 2400}
 
 EXPECT: dict[int, dict] = {}  # id(driver) -> what the workload fed it
@@ -35,7 +35,7 @@ EXPECT: dict[int, dict] = {}  # id(driver) -> what the workload fed it
 
 def plan(tier, seed):
     n = 16
-    per = 40 if tier == "quick" else 500
+    per = 40 if tier == "quick" else 4000
     return [{"name": f"cfg{j}", "j": j, "seed": seed, "configs": per} for j in range(n)]
 
 
@@ -229,6 +229,30 @@ def run(spec):
                 rec.viol(f"C18/fallback-raised/{how}/{type(ex).__name__}", f"update_delta without committee data raised {type(ex).__name__}: {ex}", {**base, "how": how})
             rec.case(scheme, fn, how)
             atoms.calc = calc
+        # ---- the same live object re-tuned through its documented attributes (a reference variance, a range or an
+        #      update function changed in the middle of a run): every clause again with the new settings
+        lo2 = float(10 ** rng.uniform(-4, 1))
+        hi2 = lo2 * float(rng.choice([1.0, 1.5, 10.0, 1e6]))
+        ref2 = float(ref * 10 ** rng.uniform(-3, 3))
+        drv.min_delta, drv.max_delta, drv.reference_variance = lo2, hi2, ref2
+        base2 = {"min": lo2, "max": hi2, "ref": ref2, "scheme": scheme, "fn": fn, "retuned": True}
+        for how, v in (("missing-key", ref2), ("prescribed", 0.0), ("prescribed", ref2), ("prescribed", ref2 * 64), ("missing-key", ref2)):
+            try:
+                if how == "missing-key":
+                    drv.scheme = scheme
+                    calc.extra = {}
+                    atoms.positions += 1e-3
+                    atoms.get_potential_energy()
+                    vexp = ref2
+                else:
+                    vexp = feed(drv, atoms, calc, rng, scheme, v, how)
+                EXPECT[id(drv)] = {**base2, "v": vexp, "how": how + " after re-tuning"}
+                rec.evaluations += 1
+                rec.count("calls_after_retuning")
+                drv.update_delta()
+            except Exception as ex:  # noqa: BLE001
+                rec.viol(f"C18/raised/{type(ex).__name__}/{fn}/{scheme}", f"update_delta raised {type(ex).__name__}: {ex} after re-tuning", {**base2, "how": how})
+        drv.min_delta, drv.max_delta, drv.reference_variance = lo, hi, ref
         # ---- the in-step call uses the adapted delta
         if scheme == "forces":
             vexp = feed(drv, atoms, calc, rng, scheme, 0.0, "committee")
